@@ -23,6 +23,8 @@ var nodeStub = []string{"net.Conn -> simconn (simulator-owned byte pipe; chunkin
 	"wall clock and timers -> testing/synctest fake clock", "TxProcessor/TxSaver -> counting recorder", "storage -> simstore"}
 
 // preVerificationMessage returns one well-formed message a peer may send at any time.
+var sentVersionFlag, sentVerackFlag *bool
+
 func preVerificationMessage(c *core.Ctx, w *nw.World, announced *[]bitcoin.Hash32, k int) ([]byte, string) {
 	t := c.T
 	switch t.Draw(14) {
@@ -70,8 +72,10 @@ func preVerificationMessage(c *core.Ctx, w *nw.World, announced *[]bitcoin.Hash3
 	case 10:
 		return nw.Frame(wire.CmdPing, nw.PingPayload(uint64(k))), "ping"
 	case 11:
+		*sentVersionFlag = true
 		return nw.Frame(wire.CmdVersion, nw.VersionPayload(100)), "version(repeat)"
 	case 12:
+		*sentVerackFlag = true
 		return nw.Frame(wire.CmdVerAck, nil), "verack(repeat)"
 	default:
 		cmds := []string{"feefilter", "mempool", "sendcmpct", "notfound", "getdata", "getheaders"}
@@ -124,6 +128,8 @@ func runC13(c *core.Ctx) {
 	p.VerifyReply = nil
 	var announced []bitcoin.Hash32
 	k := 0
+	sentVersion, sentVerack := false, false
+	sentVersionFlag, sentVerackFlag = &sentVersion, &sentVerack
 	burst := func(stage string) {
 		n := t.Draw(4)
 		for i := 0; i < n; i++ {
@@ -143,26 +149,36 @@ func runC13(c *core.Ctx) {
 	switch order {
 	case 0:
 		p.Send(nw.Frame(wire.CmdVersion, nw.VersionPayload(int32(t.Draw(800000)))))
+		sentVersion = true
 		w.Pump()
 		burst("between version and verack")
 		p.Send(nw.Frame(wire.CmdVerAck, nil))
+		sentVerack = true
 	case 1:
 		c.Probe("verack-before-version")
 		p.Send(nw.Frame(wire.CmdVerAck, nil))
+		sentVerack = true
 		w.Pump()
 		burst("between verack and version")
 		p.Send(nw.Frame(wire.CmdVersion, nw.VersionPayload(0)))
+		sentVersion = true
 	case 2:
 		c.Probe("no-verack")
 		p.Send(nw.Frame(wire.CmdVersion, nw.VersionPayload(0)))
+		sentVersion = true
 	}
 	w.Pump()
 	checkUnverified(c, w, p, "after handshake messages")
 	burst("after handshake, before verification")
 
-	handshook := p.Node.HandshakeIsComplete()
+	// the handshake is complete when the peer has sent both its version and its verack; this is the
+	// script's own knowledge, not the node's flag
+	handshook := sentVersion && sentVerack
 	if handshook {
 		c.Probe("handshake-complete")
+	}
+	if p.Node.HandshakeIsComplete() && !handshook {
+		c.Fail("c13.handshake-needs-version-and-verack", fmt.Sprintf("version=%v verack=%v", sentVersion, sentVerack), "the node treats the handshake as complete although the peer sent version=%v verack=%v", sentVersion, sentVerack)
 	}
 	// An earlier headers message after the handshake already counted as the (failed) verification
 	// reply, and a headers message before it desynchronised the stream: the node is gone then.
